@@ -226,3 +226,14 @@ Lemma window_suffices w k : w <= 58 -> (w * k) mod 8 + w <= 64.
 Proof. apply field_fits. Qed.
 Lemma ninth_byte_needed : (59 * 5) mod 8 + 59 > 64.
 Proof. vm_compute. reflexivity. Qed.
+
+(* a 59-bit field at bit offset 295 (bit 7 of byte 36): nine bytes on the way in (bit-by-bit path) and out (ninth byte) *)
+Example intvec_bits_example :
+  let d := zeros 48 in let v := 2 ^ 58 + 12345 in
+  295 + 59 <= 8 * blen d /\
+  match write_bits d v 295 59, write_bits_bulk d v 295 59 with
+  | IOk d1, IOk d2 => d1 = d2 /\ read_bits d1 295 59 = IOk v /\ read_bits d1 (295 - 59) 59 = IOk 0
+  | _, _ => False
+  end.
+Proof. cbv zeta. split; [cbn; lia|]. vm_compute. repeat split; reflexivity. Qed.
+
